@@ -1,7 +1,7 @@
 """C01 - Lexing and parsing are total, and diagnostics are located in the input.
 
 proof  : coq/Props/C01.v  (lex_total, lex_no_crash, lex_typed, lex_located, pump_total, pump_no_crash, source_long_ok,
-         parse_total, parse_no_crash for the three entry points, keyword table = documented table) over
+         parse_total, parse_no_crash, parse_error_located for the three entry points, keyword table = documented table) over
          Model/Lex.v + Model/Pump.v + Model/LexParse.v (+ C02's Model/Parse*.v)
 tie    : T  Gen/Tokens.v (token type constants + keywords map) regenerated from token/token.go
          C  extracted model (build/modelrun_lex: lex, pump) vs the real lexer and the parser's ReadPeek
@@ -70,7 +70,7 @@ def run(ctx):
         "the parser model is C02's (Model/Parse*.v, Gen/TokenTypes.v, Gen/ParserTables.v); C01 composes it with the lexer/pump model "
         "(Model/LexParse.v) and compares the composition with the three real entry points (outcome class + error token); "
         "strconv.ParseFloat verdicts are an oracle supplied by the Go side (implrun floats)",
-        "not proved: provenance of the parser model's error token (C01_parse_error_located_partial); compared on every input instead",
+        "C01_parse_error_located rests on C02's parse_error_located (provenance of the parser model's error token); the error token is also compared with the real parser on every input",
         "lexer custom tokens (WithCustomTokens / parser custom parsers) are not modelled (empty map)",
     ]
 
